@@ -21,14 +21,22 @@ class Ticker:
     class Boom(Exception):
         pass
 
+    class Interrupt(BaseException):
+        """not an Exception: what KeyboardInterrupt / SystemExit / a user's own BaseException look like to library code that
+        cleans up with `except Exception` instead of `finally` (round-3 seed C10/8)"""
+        pass
+
     def __init__(self):
         self.n = 0
         self.crash_at = None
+        self.base = False          # raise Interrupt instead of Boom
 
     def __call__(self):
         k = self.n
         self.n += 1
         if self.crash_at is not None and k == self.crash_at:
+            if self.base:
+                raise Ticker.Interrupt("user code was interrupted at evaluation %d" % k)
             raise Ticker.Boom("user code raised at evaluation %d" % k)
 
     def reset(self, crash_at=None):
@@ -154,6 +162,34 @@ def variants(F, t1, t2, tick=lambda: None, extra_first=False, which=None):
     def msib(*lead):
         return call(lead, o1.get(), o2.get())
     out.append(Variant("multi_sibling", msib, (), [t1, t2], [o1, o2]))
+
+    # 8b. sibling of [method of one object, a plain function without object parameters, method of another object] (round-3 seed
+    #     C09/8: the offsets of the per-callable parameter blocks restarted after a callable without parameters)
+    o3, o4 = One(t1), One(t2 * 1.0)
+
+    def plain_helper(z):
+        return z * 1.0
+
+    @make_sibling(o3.get, plain_helper, o4.get)
+    def msib3(*lead):
+        return call(lead, plain_helper(o3.get()), o4.get())
+    out.append(Variant("multi_sibling_with_plain_function", msib3, (), [t1, t2], [o3, o4]))
+
+    # 8c. a class that is BOTH a torch.nn.Module and an EditableModule and depends on a derived (non-Parameter) tensor that
+    #     only getparamnames knows about (round-3 seed C09/7: the nn.Module branch of the dispatch taken first)
+    class Both(torch.nn.Module, xt.EditableModule):
+        def __init__(self):
+            super().__init__()
+            self.a = t1
+            self.b = t2 * 1.0            # derived, non-leaf, not a Parameter
+
+        def run(self, *lead):
+            return call(lead, self.a, self.b)
+
+        def getparamnames(self, methodname, prefix=""):
+            return [prefix + "a", prefix + "b"]
+    both = Both()
+    out.append(Variant("nn_and_editable_module", both.run, (), [t1, t2], [both]))
 
     # 9. method with one explicit and one object-held parameter, plus a non-tensor parameter
     class Half(xt.EditableModule):
